@@ -23,8 +23,9 @@ type Value struct {
 }
 
 type rangeState struct {
-	over Value
-	kind string // map | string
+	over    Value
+	kind    string // map | string
+	keySort Sort   // map ranges: sort of the keys
 }
 
 type Cell struct {
